@@ -42,6 +42,8 @@ TEXT = {
          "The specification's Err(path) is compared with the last quoted path of the real message for faults at every position of the universe (wrong type, unparsable text, failed validator, failing default, failing element of a list or map, nested struct); the error must be a ucfg.Error with non-nil Reason and Class; TLC refutes the two repaired deviations."),
  "C06": ("pack", "TLA+ Pack (typed value -> config tree) and RoundTrip; TLC identity invariant over all well-formed two-field struct types x values; replay with a generic reflect type builder comparing packed tree and round-tripped value",
          "Gen_Pack enumerates struct types from a descriptor grammar with tags (rename, dotted, inline, ignore) and extreme values; the harness builds the real types with reflect, merges the value into an empty config, compares the generic view with Pack's tree, unpacks into a zero value and compares modulo nil~empty; the listed finding (inline map next to named fields) is modelled as a deviation with its exact outcome."),
+ "C11": ("readers", "TLA+ readers model (UcfgReaders: N reader processes, per-call cache, interleaved atomic steps) checked by TLC for SharedUnchanged/ResultIsSequential; sequential purity by a name-free deep hash; concurrent goroutines on a fresh config compared with the specification's answers; Go race detector as observer",
+         "TLC explores every interleaving of three readers with different resolvers and refutes the 'memo on the shared value' deviation; on the code every read operation must leave a reflective deep hash of the config unchanged, a later read under a different resolver must not be served an earlier answer, and 8-32 goroutines reading a fresh shared config must each obtain the sequential result that UcfgVarExp predicts - also in a -race build."),
 }
 NOTE = "bounded universes (stated in evidence.rule); projection through the public API; TLC/JVM/Go runtime trusted; Ideal layer + named deviations listed in known_findings.json"
 
@@ -55,6 +57,8 @@ m = dict(
                source_commits=[], add_only=True),
     
     engines=[
+        dict(name="readers", path="spec/UcfgReaders.tla", serves_properties=["C11"],
+             kind_free_text="TLA+ interleaving model of concurrent reads with per-call cache; harness/cmd/ucfgconf/fam_readers.go + deephash.go; race build"),
         dict(name="reify", path="spec/UcfgReify.tla", serves_properties=["C04", "C13", "C14"],
              kind_free_text="TLA+ typed Unpack with validators, defaults, frame and error paths; Gen_Reify; harness/cmd/ucfgconf/fam_reify.go"),
         dict(name="pack", path="spec/UcfgPack.tla", serves_properties=["C06"],
